@@ -1234,7 +1234,7 @@ def check_witness(ctx, finding):
         cfg = oi.make_twodb_dir(scratch, script["hist"])
         res, orc, fins = twodb_execute(scratch, cfg, script, rev_index, bases, w["engine"], calls, tuple(w["fail"]))
     seen = orc.steps[-1].get("seen") if orc.steps else None
-    if res != "ok" and seen == [True, False] and fins[1]["rows"] == [] and 0 in fins[1]["objs"]:
+    if res != "ok" and seen and seen[:2] == [True, False] and fins[1]["rows"] == [] and 0 in fins[1]["objs"]:
         return ("db2 was configured without transactional_ddl but its context has transactional_ddl=True (inherited from db1's "
                 "configure() call): after the failure revision a's table exists and alembic_version is empty")
     return None
@@ -1285,7 +1285,7 @@ def classify(failure):
         return None
     m, calls = i["multi"], i["config"]["calls"]
     if (m.get("db") == 1 and calls[1][0] is None and calls[0][0] is True and m.get("own") == [False, bool(calls[1][1])]
-            and m.get("seen") == [True, bool(calls[1][1])] and failure.get("tags") and set(failure["tags"]) <= {"nonTxnOk", "perMigOk"}):
+            and (m.get("seen") or [])[:2] == [True, bool(calls[1][1])] and failure.get("tags") and set(failure["tags"]) <= {"nonTxnOk", "perMigOk"}):
         return "C04-F1"
     return None
 
